@@ -100,9 +100,10 @@ func streamC05(c *Ctx) {
 			recordHistory(c, lines, &o, be)
 			c.Count("reopen:" + be)
 			if o.Index >= 0 {
-				reportHistoryProblem(c, dr, im, lines, &o, be, HistOpts{}, "reopen")
-				im.Destroy()
-				return
+				if reportHistoryProblem(c, dr, im, lines, &o, be, HistOpts{}, "reopen") {
+					im.Destroy()
+					return
+				}
 			}
 		}
 		im.Destroy()
@@ -123,9 +124,10 @@ func streamC05(c *Ctx) {
 			recordHistory(c, lines, &o, be)
 			c.Count("abandoned-then-reopen:" + be)
 			if o.Index >= 0 {
-				reportHistoryProblem(c, dr, im, lines, &o, be, HistOpts{}, "abandoned")
-				im.Destroy()
-				return
+				if reportHistoryProblem(c, dr, im, lines, &o, be, HistOpts{}, "abandoned") {
+					im.Destroy()
+					return
+				}
 			}
 		}
 		im.Destroy()
